@@ -659,3 +659,49 @@ Proof. vm_compute. repeat split; reflexivity. Qed.
 Theorem C02_fresh_implies_hazard_free :
   forall o s, fresh_req o s = true -> hazard_free o s = true.
 Proof. exact fresh_req_hazard_free. Qed.
+
+(* ---- 10. lifting 2 instantiated; ingredients of clause 2 for define_step / amend_step ---------- *)
+
+(* BOTH clauses for static declarations with the decidable hazard guard (static_hz_guard: the issuer is
+   a step, the path list is duplicate free, hazard_free -- which for a static declaration says "the
+   issuer is not detached"): the premises of C02_confluence_guarded_generic (congruence, forward diamond
+   with guard transport) are discharged, so from any state with C09's core invariant, if ONE schedule is
+   accepted and hazard free, EVERY reordering that keeps each step's own order is accepted, hazard free
+   and ends in a graph that agrees on every look-up.  Stale paths are allowed (taken over in either
+   order).  The same two premises for define_step are not proved (acceptance characterisation). *)
+Theorem C02_static_one_schedule_suffices :
+  forall (l1 l2 : list op) (s : st),
+    inv_core_b s = true -> swaps different_issuers l1 l2 -> fine static_hz_guard l1 s = true ->
+    fine static_hz_guard l2 s = true /\ st_equiv (run_ops l1 s) (run_ops l2 s).
+Proof. exact static_one_schedule_suffices. Qed.
+
+(* The cycle checks of define_step / amend_step (would_cycle) are monotone in the SET of dependency
+   edges: a check that passes in a state passes in every state with fewer edges (a request accepted
+   AFTER another step's request does not fail its cycle checks BEFORE it) ... *)
+Theorem C02_cycle_check_monotone :
+  forall sink srcs s s',
+    incl (dep_edges s) (dep_edges s') -> would_cycle sink srcs s' = false -> would_cycle sink srcs s = false.
+Proof. exact cycle_check_passes_with_fewer_edges. Qed.
+
+(* ... and cannot fail below an acyclic state that contains the edge being added: if t has the core
+   invariant (acyclic), contains the edges of s and the edge src -> sink, then adding src -> sink to s
+   passes the check.  (The symmetric half of acceptance: when b is accepted after a, the final state of
+   a;b is acyclic, hence the cycle checks of a cannot fail in the order b;a.) *)
+Theorem C02_cycle_check_passes_below_acyclic_state :
+  forall sink src s t,
+    inv_core_b t = true -> incl (dep_edges s) (dep_edges t) -> In (src, sink) (dep_edges t) ->
+    would_cycle sink [src] s = false.
+Proof. exact would_cycle_false_in_acyclic_superstate. Qed.
+
+(* non-vacuity of C02_static_one_schedule_suffices: the three-request schedule of C02_schedule_example *)
+Example C02_static_hz_example :
+  let s := run_ops ex_boot (init_st 3) in
+  let ra := OpDeclareStatic (KStep, [97]) [[120]; [121]] in
+  let rb := OpDeclareStatic (KStep, [98]) [[122]] in
+  let rc := OpDeclareStatic (KStep, [97]) [[123]] in
+  inv_core_b s = true /\ fine static_hz_guard [ra; rb; rc] s = true /\
+  swaps different_issuers [ra; rb; rc] [rb; ra; rc].
+Proof.
+  cbv zeta. split; [vm_compute; reflexivity|]. split; [vm_compute; reflexivity|].
+  apply (sw_swap different_issuers [] _ _ [_]). reflexivity.
+Qed.
